@@ -16,12 +16,14 @@ type zzGroup struct {
 	records int
 	seq     uint64
 	err     error
+	sync    bool
+	keys    []byte // first key byte of every record of the group
 }
 
 var (
-	zzGroups    []zzGroup
-	zzInGroup   int // groups between lock acquisition and release (must be <= 1)
-	zzFreeSmall bool
+	zzGroups      []zzGroup
+	zzInGroup     int // groups between lock acquisition and release (must be <= 1)
+	zzFreeSmall   bool
 	zzJournalFail []bool
 )
 
@@ -36,7 +38,12 @@ func (db *DB) flush(n int) (*memDB, int, error) {
 }
 
 func (db *DB) writeJournal(batches []*Batch, seq uint64, sync bool) error {
-	g := zzGroup{records: batchesLen(batches), seq: seq}
+	g := zzGroup{records: batchesLen(batches), seq: seq, sync: sync}
+	for _, b := range batches {
+		for _, ix := range b.index {
+			g.keys = append(g.keys, ix.k(b.data)[0])
+		}
+	}
 	// groups are serialised: each starts right after the records published so far
 	vpAssert(seq == db.seq+1, "group-starts-at-next-sequence")
 	vpAssert(len(db.writeLockC) == 1, "journal-written-under-the-write-lock")
@@ -69,28 +76,47 @@ func zzMergeDB() *DB {
 	return db
 }
 
-func zzMerge(nw int) {
+func zzMerge(nw int) { zzMergeMode(nw, false) }
+
+// syncMode: writer 0 calls DB.Write with its own batch, every writer's Sync
+// option is symbolic, merging is on and the journal does not fail (those
+// dimensions are the subject of the plain mode)
+func zzMergeMode(nw int, syncMode bool) {
 	zzGroups, zzInGroup = nil, 0
 	zzFreeSmall = vpChoose(2) == 1
 	zzJournalFail = make([]bool, nw)
 	for i := range zzJournalFail {
-		zzJournalFail[i] = vpNondetBool()
+		zzJournalFail[i] = !syncMode && vpNondetBool()
 	}
 	db := zzMergeDB()
 	results := make([]error, nw)
 	done := make([]int, nw)
 	sizes := make([]int, nw)
+	wantSync := make([]bool, nw)
 	for i := 0; i < nw; i++ {
 		i := i
-		noMerge := vpChoose(2) == 1
+		noMerge := !syncMode && vpChoose(2) == 1
 		big := vpChoose(2) == 1
+		useWrite := syncMode && i == 0 // DB.Write with the caller's own batch instead of DB.Put
+		if syncMode {
+			wantSync[i] = vpNondetBool() // symbolic: decided by the solver where it matters
+		}
 		val := []byte("v")
 		if big {
 			val = make([]byte, 40)
 		}
 		sizes[i] = 1
+		wo := &opt.WriteOptions{NoWriteMerge: noMerge, Sync: wantSync[i]}
 		go func() {
-			results[i] = db.Put([]byte{byte('a' + i)}, val, &opt.WriteOptions{NoWriteMerge: noMerge})
+			if useWrite {
+				b := new(Batch)
+				b.Put([]byte{byte('a' + i)}, val)
+				before := append([]byte(nil), b.Dump()...)
+				results[i] = db.Write(b, wo)
+				vpAssert(b.Len() == 1 && vpEqBytes(b.Dump(), before), "write-leaves-the-callers-batch-alone")
+			} else {
+				results[i] = db.Put([]byte{byte('a' + i)}, val, wo)
+			}
 			done[i]++
 		}()
 	}
@@ -113,6 +139,12 @@ func zzMerge(nw int) {
 		}
 	}
 	vpAssert(total == nw, "every-record-logged-exactly-once")
+	// a group is synced when any of its writers asked for it
+	for _, g := range zzGroups {
+		for _, k := range g.keys {
+			vpAssert(vpImplies(wantSync[int(k-'a')], g.sync), "group-synced-if-any-member-asked-for-sync")
+		}
+	}
 	failed := 0
 	for i := 0; i < nw; i++ {
 		if results[i] != nil {
@@ -132,8 +164,10 @@ func zzMerge(nw int) {
 	}
 }
 
-func ZZ_C10_merge2() { zzMerge(2) }
-func ZZ_C10_merge3() { zzMerge(3) }
+func ZZ_C10_merge2()      { zzMerge(2) }
+func ZZ_C10_merge3()      { zzMerge(3) }
+func ZZ_C10_merge2_sync() { zzMergeMode(2, true) }
+func ZZ_C10_merge3_sync() { zzMergeMode(3, true) }
 
 func ZZ_C10_witness() {
 	zzMerge(2)
